@@ -1230,6 +1230,8 @@ CT_ATTRS = ["diffraction_order", "grating", "focal_length", "pixel_spacing", "di
 def _gen_filter_spec(rng, i):
     if rng.random() < 0.65:
         window = _f(np.round(10 ** rng.uniform(-0.5, 1.3), int(rng.integers(1, 4))))
+        if rng.random() < 0.15:
+            window = _f(np.round(10 ** rng.uniform(1.3, 2.6), 1))      # broad-band filter enclosing narrower ones
         u = rng.random()
         ft = None if u < 0.3 else window if u < 0.45 else _f(window * rng.uniform(0.05, 0.95))
         return {"type": "trapezoid", "c": _f(np.round(rng.uniform(250, 1000), int(rng.integers(0, 3)))), "window": window,
@@ -1377,6 +1379,11 @@ def gen_case(rng, tier):
         obs = POLY_OBS
         npool = int(rng.integers(2, 11))
         case["filters_pool"] = [_gen_filter_spec(rng, i) for i in range(npool)]
+        if rng.random() < 0.25:
+            # one broad-band channel enclosing (most of) the narrow filters, at a random position of the pool
+            case["filters_pool"][int(rng.integers(npool))] = {
+                "type": "trapezoid", "c": _f(np.round(rng.uniform(600, 700), 1)), "window": _f(np.round(rng.uniform(500, 1000), 0)),
+                "flat_top": _f(np.round(rng.uniform(100, 450), 0)), "name": "broad band"}
         case["init"] = {"filters": _gen_filter_idx(rng, npool), "min_bins_per_window": _gen_bins_per(rng), "name": _gen_name(rng)}
         case["init_form"] = SEQ_FORMS[int(rng.integers(3))]
         for _ in range(nops):
